@@ -69,6 +69,7 @@ func (ds *dataStore) AppendRecord(rec *Record) (pos Position, err error) {
 	cmem.DBRL.SetData.AddSize(rec.Payload.CArray.Cap - oldCap)
 
 	wrec := wrapRecord(rec)
+	verifPoint("cf.w.slot", &ds.Mutex, rec.Payload.RecSize, rec.Payload.Ver)
 	ds.Lock()
 	size := rec.Payload.RecSize
 	currOffset := ds.chunks[ds.newHead].writingHead
@@ -82,7 +83,9 @@ func (ds *dataStore) AppendRecord(rec *Record) (pos Position, err error) {
 	pos.ChunkID = ds.newHead
 	pos.Offset = currOffset
 	wrec.pos = pos
+	verifPoint("cf.w.append", pos)
 	ds.chunks[ds.newHead].AppendRecord(wrec)
+	verifPoint("cf.w.dsunlock")
 	ds.wbufSize += size
 
 	if wrec.rec.Payload.Ver > 0 {
@@ -103,16 +106,20 @@ func (ds *dataStore) flush(chunk int, force bool) error {
 	if ds.wbufSize == 0 {
 		return nil
 	}
+	verifPoint("cf.f.lock", &ds.flushLock)
 	ds.flushLock.Lock()
 	defer ds.flushLock.Unlock()
+	verifPoint("cf.f.ds1", &ds.Mutex)
 	ds.Lock()
 	if ds.wbufSize == 0 {
 		ds.Unlock()
+		verifPoint("cf.f.unlock")
 		return nil
 	}
 	if !force && (time.Since(ds.lastFlushTime) < time.Duration(Conf.FlushInterval)*time.Second) &&
 		(ds.wbufSize < (1 << 20)) {
 		ds.Unlock()
+		verifPoint("cf.f.unlock")
 		return nil
 	}
 
@@ -123,21 +130,25 @@ func (ds *dataStore) flush(chunk int, force bool) error {
 	ds.Unlock()
 	// logger.Infof("flushing %d records to data %d", n, chunk)
 
+	verifPoint("cf.f.open", chunk)
 	w, err := ds.GetStreamWriter(chunk, true)
 	if err != nil {
 		logger.Fatalf("fail to open data file to flush, stop! err: %v", err)
 		return err
 	}
 
+	verifPoint("cf.f.check", chunk, w)
 	filessize := ds.chunks[chunk].getDiskFileSize()
 	if w.offset != filessize {
 		logger.Fatalf("wrong data file size, exp %d, got %d, %s, dataChunk %#v",
 			filessize, w.offset, ds.genPath(chunk), &ds.chunks[chunk])
 	}
 	nflushed, err := ds.chunks[chunk].flush(w, false)
+	verifPoint("cf.f.ds2", &ds.Mutex)
 	ds.Lock()
 	ds.wbufSize -= nflushed
 	ds.Unlock()
+	verifPoint("cf.f.unlock")
 	w.Close()
 
 	return nil
